@@ -324,7 +324,9 @@ pub fn tiny_dump(dir: &str, max_cases: u64) -> i32 {
             let i = idx;
             idx += 1;
             faults::IDX.store(idx, Relaxed);
-            if i % stride != 0 {
+            // values that address far cells make the dense range huge (the open known finding):
+            // not part of the interpreter corpus
+            if i % stride != 0 || ["ZZZZZZZ1", "XFD1048576", "4294967296", "1048577", "999999999", "100000000000000000000"].iter().any(|f| kind.contains(f)) {
                 return;
             }
             let k: String = kind.chars().map(|c| if c.is_ascii_alphanumeric() || c == '-' || c == '.' { c } else { '_' }).take(60).collect();
@@ -341,13 +343,19 @@ pub fn tiny_dump(dir: &str, max_cases: u64) -> i32 {
 }
 
 /// runs the files written by `tiny_dump` (those with index % shards == shard) in-process
-pub fn tiny_files(dir: &str, shard: u64, shards: u64) -> i32 {
+pub fn tiny_files(dir: &str, shard: u64, shards: u64, skip: u64) -> i32 {
     let mut names: Vec<String> = std::fs::read_dir(dir).map(|d| d.filter_map(|e| e.ok()).map(|e| e.file_name().to_string_lossy().into_owned()).collect()).unwrap_or_default();
     names.sort();
     let mut out = UnitResult::default();
     let mut ran = 0u64;
+    let mut seen = 0u64;
     for (i, n) in names.iter().enumerate() {
         if i as u64 % shards != shard || !n.ends_with(".bin") {
+            continue;
+        }
+        // resuming after a run that ended early: skip the first `skip` cases of this shard
+        if seen < skip {
+            seen += 1;
             continue;
         }
         let fmt = match n.split('_').nth(1) {
